@@ -32,3 +32,16 @@ pub fn vf64_max() -> (r: f64)
 pub open spec fn tgt<T: PartialOrd>(a: T, b: T) -> bool {
     a.partial_cmp_spec(&b) == Some(core::cmp::Ordering::Greater)
 }
+
+// ---- A4: assumed contract on std, Entry::or_default == or_insert(V::default()), stated through vstd's Entry model ----
+pub assume_specification<'a, K, V: Default>[ std::collections::hash_map::Entry::<'a, K, V>::or_default ](e: std::collections::hash_map::Entry<'a, K, V>) -> (r: &'a mut V)
+    ensures
+        e.value().is_some() ==> *r == e.value().unwrap(),
+        e.value().is_none() ==> V::default.ensures((), *r),
+        e.final_value() == Some(*final(r));
+
+// ---- A4: assumed contracts on std conversions used by `x.into()` ----
+pub assume_specification<T>[ <Arc<T> as From<T>>::from ](t: T) -> (r: Arc<T>)
+    ensures *r == t;
+pub assume_specification<T>[ <T as From<T>>::from ](t: T) -> (r: T)
+    ensures r == t;
